@@ -1,6 +1,7 @@
 mod common;
 mod corpus;
 mod deep;
+mod degen;
 mod dets;
 mod dtree;
 mod gast;
